@@ -1,6 +1,7 @@
 """helpers shared by the property harnesses (loaded through the instrumenter)"""
-from sx.harness import Family
+from sx.harness import Family, EXCLUDED
 from sx.core import all_of, any_of, sym_eq
+from sx.models import ExcludedInput
 
 OK_EXC = ("ValueError", "TypeError")
 
@@ -9,8 +10,21 @@ def call(f, *a, **k):
     """('ok', value) | ('exc', ExceptionTypeName, exception).  Engine exceptions are BaseException and pass through."""
     try:
         return ("ok", f(*a, **k))
+    except ExcludedInput as e:
+        # a counted exclusion (un-modelled library code reached with symbolic text): the outcome of this call is
+        # outside the claim on this path; callers skip their checks for it instead of losing the whole path
+        return ("excluded", e.label, None)
     except Exception as e:
         return ("exc", type(e).__name__, e)
+
+
+def outcome(r, value=False):
+    """observation of a call result: exception type name, 'ok' (or the value), or the EXCLUDED marker"""
+    if r[0] == "excluded":
+        return EXCLUDED
+    if r[0] == "exc":
+        return r[1]
+    return r[1] if value else "ok"
 
 
 def is_value_error(r):
